@@ -64,7 +64,11 @@ func c05PoolOps(r *verifh.Rng, n, maxage, nops int, breach bool) []string {
 				ops = append(ops, fmt.Sprintf("t+ %d", r.Pick(1, maxage/2+1, maxage)))
 			}
 		}
-		ops = append(ops, fmt.Sprintf("t+ %d", r.Pick(maxage, maxage+1, 2*maxage)), "get", "stat")
+		ops = append(ops, fmt.Sprintf("t+ %d", r.Pick(maxage, maxage+1, 2*maxage)))
+		if r.Chance(1, 2) {
+			ops = append(ops, "getdpanic", "stat") // one of several expired resources: destroy panics, the others stay idle
+		}
+		ops = append(ops, "get", "stat")
 		est = 1
 	}
 	advance := func() {
@@ -88,6 +92,13 @@ func c05PoolOps(r *verifh.Rng, n, maxage, nops int, breach bool) []string {
 				if maxage > 0 && r.Chance(1, 3) {
 					// let the resource just put back expire (or just not) before the next get
 					ops = append(ops, fmt.Sprintf("t+ %d", r.Pick(maxage, maxage+1, 2*maxage)))
+					if r.Chance(1, 3) {
+						// the destroy callback panics (if Get calls it): the resource is gone, nothing handed out
+						ops = append(ops, "getdpanic", "stat")
+						if est > 0 {
+							est--
+						}
+					}
 					get()
 				}
 			} else {
@@ -177,6 +188,18 @@ func c05GenSeq(r *verifh.Rng) []verifh.Section {
 		secs = append(secs, verifh.Section{Cfg: fmt.Sprintf("kind=pool mode=seq n=%d maxage=%d breach=%d", n, maxage, b),
 			Ops: c05PoolOps(r, n, maxage, r.Range(8, 36), breach)})
 	}
+	// syncx.Barrier.Guard / syncx.Guard(lock, fn), sequentially: `borrow` = a Guard call whose fn blocks on a gate
+	// (free: inside at once; taken: the call is parked in Lock until the holder is let go), `finish [how]`, `probe`
+	for i := 0; i < verifh.Scale(8, 100); i++ {
+		var ops []string
+		for _, o := range c5.SeqOps(r, 1, r.Range(8, 30), true, c5.FinishOp(r)) {
+			if o == "try" {
+				o = "borrow"
+			}
+			ops = append(ops, o)
+		}
+		secs = append(secs, verifh.Section{Cfg: fmt.Sprintf("kind=barrier mode=seq n=1 api=%s", r.PickS("barrier", "guard")), Ops: ops})
+	}
 	// several objects alive at once (2-4 instances, equal and different capacities), ops interleaved: every
 	// instance is checked against its own n
 	for i := 0; i < verifh.Scale(10, 150); i++ {
@@ -194,6 +217,23 @@ func c05GenSeq(r *verifh.Rng) []verifh.Section {
 		}
 		secs = append(secs, verifh.Section{Cfg: fmt.Sprintf("kind=%s mode=seq ns=%s", kind, c5.MultiNs(ns)), Ops: c5.MultiOps(r, lists)})
 	}
+	// several Pools alive at once (equal and different limits) on the one virtual clock: every pool is checked
+	// against its own limit; `t+` advances the time of all of them
+	for i := 0; i < verifh.Scale(8, 120); i++ {
+		k := r.Range(2, 3)
+		maxage := r.Pick(0, 10, 100)
+		var ns []int
+		var lists [][]string
+		for j := 0; j < k; j++ {
+			n := r.Pick(1, 2, 3, r.Range(1, 5))
+			if j > 0 && r.Chance(1, 2) {
+				n = ns[0]
+			}
+			ns = append(ns, n)
+			lists = append(lists, c05PoolOps(r, n, maxage, r.Range(6, 24), false))
+		}
+		secs = append(secs, verifh.Section{Cfg: fmt.Sprintf("kind=pool mode=seq ns=%s maxage=%d breach=0", c5.MultiNs(ns), maxage), Ops: c5.MultiOps(r, lists)})
+	}
 	// thorough tier: exhaustive small scopes (every op sequence of the given length)
 	if verifh.Thorough() {
 		for _, n := range []int{1, 2} {
@@ -203,7 +243,7 @@ func c05GenSeq(r *verifh.Rng) []verifh.Section {
 			for _, ops := range c05Enumerate([]string{"try", "borrow", "return", "probe"}, 5) {
 				secs = append(secs, verifh.Section{Cfg: fmt.Sprintf("kind=tlimit mode=seq n=%d", n), Ops: ops})
 			}
-			for _, ops := range c05Enumerate([]string{"get", "getw", "put @0", "put @1", "t+ 11", "t+ 5"}, 5) {
+			for _, ops := range c05Enumerate([]string{"get", "getw", "getdpanic", "put @0", "put @1", "t+ 11", "t+ 5"}, 5) {
 				secs = append(secs, verifh.Section{Cfg: fmt.Sprintf("kind=pool mode=seq n=%d maxage=10 breach=0", n),
 					Ops: append(append([]string(nil), ops...), "stat")})
 			}
@@ -222,14 +262,22 @@ func c05GenConc(r *verifh.Rng) []verifh.Section {
 		secs = append(secs, verifh.Section{Cfg: fmt.Sprintf("kind=limit mode=conc n=%d", n), Ops: []string{
 			fmt.Sprintf("run g=%d iters=%d try=%d pan=%d rs=%d", g, r.Range(10, verifh.Scale(40, 150)), r.Pick(0, 30, 60), r.Pick(0, 10, 30), r.Intn(1<<30)),
 			fmt.Sprintf("rogue g=%d iters=%d rs=%d", r.Range(2, 8), r.Range(10, 60), r.Intn(1<<30)),
-			fmt.Sprintf("run g=%d iters=%d try=%d pan=%d rs=%d", g, r.Range(10, 40), 50, 20, r.Intn(1<<30)),
+			fmt.Sprintf("run g=%d iters=%d try=%d pan=%d exits=se rs=%d", g, r.Range(10, 40), 50, 20, r.Intn(1<<30)),
 		}})
 	}
 	for i := 0; i < verifh.Scale(4, 60); i++ {
 		n := r.Pick(1, 2, r.Range(1, 6))
 		g := r.Pick(n+1, 2*n+2, r.Range(2, 12))
 		secs = append(secs, verifh.Section{Cfg: fmt.Sprintf("kind=tlimit mode=conc n=%d", n), Ops: []string{
-			fmt.Sprintf("run g=%d iters=%d try=%d pan=%d rs=%d", g, r.Range(10, verifh.Scale(30, 100)), r.Pick(0, 30), r.Pick(0, 10, 30), r.Intn(1<<30)),
+			fmt.Sprintf("run g=%d iters=%d try=%d pan=%d exits=%s rs=%d", g, r.Range(10, verifh.Scale(30, 100)), r.Pick(0, 30), r.Pick(0, 10, 30), r.PickS("s", "se"), r.Intn(1<<30)),
+		}})
+	}
+	// syncx.Barrier.Guard / syncx.Guard: a limiter of capacity 1 (mutual exclusion), the callers leave fn by return,
+	// panic (string / error value) or runtime.Goexit
+	for i := 0; i < verifh.Scale(3, 40); i++ {
+		secs = append(secs, verifh.Section{Cfg: fmt.Sprintf("kind=barrier mode=conc n=1 api=%s", r.PickS("barrier", "guard")), Ops: []string{
+			fmt.Sprintf("run g=%d iters=%d pan=%d exits=%s rs=%d", r.Range(2, 8), r.Range(10, verifh.Scale(40, 120)), r.Pick(0, 10, 40), r.PickS("s", "seg", "e"), r.Intn(1<<30)),
+			fmt.Sprintf("run g=%d iters=%d pan=100 exits=%s rs=%d", r.Range(2, 6), r.Range(5, 30), r.PickS("seg", "g", "se"), r.Intn(1<<30)),
 		}})
 	}
 	for i := 0; i < verifh.Scale(5, 100); i++ {
@@ -286,7 +334,7 @@ func c05RunSem(op []string, n int, borrow func(r *verifh.Rng) bool, l c05Sem) st
 					if err := l.Return(); err != nil {
 						h.Rec(gid, "e"+strconv.Itoa(gid))
 					}
-				}, func() { c5.Inside(h, ga, r, gid, gid, pan) })
+				}, func() { c5.InsideK(h, ga, r, gid, gid, pan, p.Str("exits", "s")) })
 			}
 		}(gid)
 	}
@@ -490,6 +538,139 @@ func c05StartTimeoutLimit(cfg verifh.Cfg) (func(op []string) string, func()) {
 	}
 }
 
+// c05StartBarrier: syncx.Barrier.Guard (api=barrier) or syncx.Guard(&mutex, fn) (api=guard).
+func c05StartBarrier(cfg verifh.Cfg) (func(op []string) string, func()) {
+	var b Barrier
+	var mu sync.Mutex
+	lock := &b.lock
+	guard := b.Guard
+	if cfg.Str("api", "barrier") == "guard" {
+		lock = &mu
+		guard = func(fn func()) { Guard(&mu, fn) }
+	}
+	type call struct {
+		gate    chan byte
+		entered chan struct{}
+		done    chan struct{}
+	}
+	var running []*call // at most one can be inside; kept as a list like the other kinds
+	dead := false        // the lock was seen taken with nobody inside: it never comes back, no point in waiting again
+	launch := func() *call {
+		c := &call{gate: make(chan byte), entered: make(chan struct{}), done: make(chan struct{})}
+		go func() {
+			defer close(c.done)
+			defer func() { _ = recover() }() // Guard does not recover: the caller does
+			guard(func() {
+				close(c.entered)
+				if k := <-c.gate; k != 0 {
+					c5.Abort(k)
+				}
+			})
+		}()
+		return c
+	}
+	probe := func() int {
+		if lock.TryLock() {
+			lock.Unlock()
+			return 1
+		}
+		return 0
+	}
+	end := func(c *call, how byte) string {
+		c.gate <- how
+		<-c.done // Guard returned / unwound: the deferred Unlock has run
+		return "ok"
+	}
+	step := func(op []string) string {
+		switch op[0] {
+		case "borrow":
+			if dead {
+				return "stuck"
+			}
+			c := launch()
+			select {
+			case <-c.entered:
+				running = append(running, c)
+				return "ok"
+			case <-time.After(time.Millisecond):
+			}
+			if len(running) == 0 {
+				// nobody is inside and yet the call does not get in: the lock was never given back
+				select {
+				case <-c.entered:
+					running = append(running, c)
+					return "ok"
+				case <-time.After(2 * time.Second):
+					dead = true
+					return "stuck"
+				}
+			}
+			old := running[0]
+			running = running[1:]
+			end(old, 0)
+			select {
+			case <-c.entered:
+			case <-time.After(10 * time.Second):
+				return "stuck"
+			}
+			running = append(running, c)
+			return "blocked"
+		case "finish":
+			if len(running) == 0 {
+				return "none"
+			}
+			c := running[0]
+			running = running[1:]
+			return end(c, c5.FinishKind(op))
+		case "probe":
+			return fmt.Sprintf("free=%d", probe())
+		case "run":
+			p := c5.Params(op)
+			g, iters, pan := p.Int("g", 2), p.Int("iters", 10), p.Int("pan", 0)
+			h := c5.NewHist(0)
+			ga := &c5.Gauge{}
+			if dead {
+				return "stuck"
+			}
+			var wg sync.WaitGroup
+			for gid := 0; gid < g; gid++ {
+				wg.Add(1)
+				go func(gid int) {
+					defer wg.Done()
+					r := c5.Rng(p, gid)
+					for i := 0; i < iters; i++ {
+						// each call on its own goroutine: Goexit inside fn ends only that call
+						var cw sync.WaitGroup
+						cw.Add(1)
+						tid := gid*100000 + i
+						cr := r.Fork()
+						go func() {
+							defer cw.Done()
+							defer func() { _ = recover() }()
+							guard(func() { c5.InsideK(h, ga, cr, -1, tid, pan, p.Str("exits", "s")) })
+						}()
+						cw.Wait()
+						if r.Chance(1, 3) {
+							runtime.Gosched()
+						}
+					}
+				}(gid)
+			}
+			if !c5.WatchdogProgress(h, c5.StuckIdle, c5.StuckAfter, wg.Wait) {
+				dead = true
+				return "stuck"
+			}
+			return c5.RunLine(h, ga, probe())
+		}
+		return "bad-op"
+	}
+	return step, func() {
+		for _, c := range running {
+			end(c, 0)
+		}
+	}
+}
+
 func c05StartPool(cfg verifh.Cfg) (func(op []string) string, func()) {
 	n := cfg.Int("n", 1)
 	maxage := cfg.Int("maxage", 0)
@@ -499,6 +680,7 @@ func c05StartPool(cfg verifh.Cfg) (func(op []string) string, func()) {
 	var createdLog, destroyedLog []int
 	var hist *c5.Hist
 	createPanics := false
+	destroyPanics := false // the next destroy call panics (after it has been logged)
 	create := func() any {
 		mu.Lock()
 		if createPanics {
@@ -517,9 +699,14 @@ func c05StartPool(cfg verifh.Cfg) (func(op []string) string, func()) {
 	destroy := func(x any) {
 		mu.Lock()
 		destroyedLog = append(destroyedLog, x.(int))
+		boom := destroyPanics
+		destroyPanics = false
 		mu.Unlock()
 		if hist != nil {
 			hist.RecShared("d:" + strconv.Itoa(x.(int)))
+		}
+		if boom {
+			panic("c05: destroy panics")
 		}
 	}
 	p := NewPool(n, create, destroy, WithMaxAge(time.Duration(maxage)))
@@ -573,10 +760,11 @@ func c05StartPool(cfg verifh.Cfg) (func(op []string) string, func()) {
 	// takes one waiter out again by pushing a sentinel (pushed and popped at once: the pool is as before;
 	// sync.Cond wakes the oldest waiter, the new call takes its place — waiters are interchangeable).
 	// panicCreate: the create callback panics (if Get calls it at all).
-	runGet := func(keepWaiting, panicCreate bool) string {
+	runGet := func(keepWaiting, panicCreate, panicDestroy bool) string {
 		mu.Lock()
 		createdLog, destroyedLog = nil, nil
 		createPanics = panicCreate
+		destroyPanics = panicDestroy
 		mu.Unlock()
 		for len(spy.Waiting) > 0 {
 			<-spy.Waiting
@@ -597,8 +785,13 @@ func c05StartPool(cfg verifh.Cfg) (func(op []string) string, func()) {
 		case o := <-results:
 			mu.Lock()
 			createPanics = false
+			dp := panicDestroy && !destroyPanics // armed and fired
+			destroyPanics = false
 			mu.Unlock()
 			cl, dl := logs()
+			if o.pan && dp {
+				return fmt.Sprintf("dpanicked destroyed=%s", csv(dl))
+			}
 			if o.pan {
 				return fmt.Sprintf("panicked destroyed=%s", csv(dl))
 			}
@@ -611,6 +804,7 @@ func c05StartPool(cfg verifh.Cfg) (func(op []string) string, func()) {
 		case <-spy.Waiting:
 			mu.Lock()
 			createPanics = false
+			destroyPanics = false
 			mu.Unlock()
 			_, dl := logs()
 			if keepWaiting {
@@ -634,11 +828,13 @@ func c05StartPool(cfg verifh.Cfg) (func(op []string) string, func()) {
 	step := func(op []string) string {
 		switch op[0] {
 		case "get":
-			return runGet(false, false)
+			return runGet(false, false, false)
 		case "getw":
-			return runGet(true, false)
+			return runGet(true, false, false)
 		case "getpanic":
-			return runGet(false, true)
+			return runGet(false, true, false)
+		case "getdpanic":
+			return runGet(false, false, true)
 		case "put":
 			// "put @k": the k-th resource the harness holds (resolved at execution time); "put <id>": literal
 			var id int
@@ -768,6 +964,8 @@ func c05RunSyncx(t *testing.T, secs []verifh.Section) {
 			return c05StartTimeoutLimit(cfg)
 		case "pool":
 			return c05StartPool(cfg)
+		case "barrier":
+			return c05StartBarrier(cfg)
 		}
 		return func([]string) string { return "bad-kind" }, nil
 	}
